@@ -5,11 +5,11 @@ package interp
 import (
 	"encoding/json"
 	"fmt"
+	"io"
 	"go/types"
 	"strings"
 	"unicode"
 
-	"golang.org/x/tools/go/ssa"
 )
 
 const VHPath = "github.com/alligator/jqawk/zzverif/vh"
@@ -240,14 +240,12 @@ type hostDecoder struct{ d *json.Decoder }
 // when the reader has failed; Decode returns io.EOF at a clean end, a sticky syntax
 // error, io.ErrUnexpectedEOF, or the reader's error.
 type rdDecoder struct {
-	r     iface
-	queue []value // item markers not yet consumed
-	rerr  value   // the reader's error (iface), once it has reported one
-	stuck value   // sticky decoder error
+	r        iface
+	queue    []value // complete items (iface values) or jsonHead for a value still arriving
+	rerr     value   // the reader's error (iface), once it has reported one
+	stuck    value   // sticky decoder error
+	consumed bool    // at least one value was decoded (its trailing newline is still buffered)
 }
-
-// jsonItem is the opaque "byte" standing for one DocStream item in a read buffer.
-type jsonItem struct{ item value }
 
 func (d *rdDecoder) fill(fr *frame) {
 	buf := make([]value, 64)
@@ -263,6 +261,16 @@ func (d *rdDecoder) fill(fr *frame) {
 		switch b := buf[i].(type) {
 		case jsonItem:
 			d.queue = append(d.queue, b.item)
+		case jsonHead:
+			d.queue = append(d.queue, b)
+		case jsonTail:
+			if n := len(d.queue); n > 0 {
+				if h, ok := d.queue[n-1].(jsonHead); ok && h.idx == b.idx {
+					d.queue[n-1] = b.item // the value is complete now
+					break
+				}
+			}
+			unsup("json decoder model: the end of a value arrived without its beginning")
 		case byte:
 			if b != ' ' && b != '\n' && b != '\t' && b != '\r' && b != 0 {
 				unsup("json decoder model: raw byte %q from the reader", b)
@@ -364,13 +372,8 @@ const (
 )
 
 
-// DocStream field indices (vh.DocStream{Items, OnRead, Mode, pos}).
-const (
-	dsItems  = 0
-	dsOnRead = 1
-	dsMode   = 2
-	dsPos    = 3
-)
+// DocStream field indices (vh.DocStream{Items, OnRead, Mode, chunks, next, pending, pendingErr}).
+const dsItems = 0
 
 func vhGlobal(fr *frame, name string) value {
 	g := fr.i.prog.ImportedPackage(VHPath).Var(name)
@@ -380,54 +383,37 @@ func vhGlobal(fr *frame, name string) value {
 	return *fr.i.base.globals[g]
 }
 
-// docStreamRead is the symbolic twin of (*vh.DocStream).Read: same packing of items and
-// errors into calls, items handed over as markers.
-func docStreamRead(fr *frame, args []value) value {
+// markers standing for (parts of) DocStream items in a read buffer
+type jsonItem struct{ item value } // a whole item
+type jsonHead struct{ idx int }    // the first half of a value
+type jsonTail struct {             // the rest of it
+	idx  int
+	item value
+}
+
+// emitChunkSym is the symbolic twin of vh.emitChunk: one marker per part.
+func emitChunkSym(fr *frame, args []value) value {
 	st := (*args[0].(*value)).(structure)
 	p := args[1].([]value)
+	c := args[2].(structure) // chunk{Parts, Err, Delivered}
 	items, _ := st[dsItems].([]value)
-	pos := int(asInt64(st[dsPos]))
-	mode := int(fr.concreteInt(st[dsMode], "DocStream.Mode"))
-	switch fn := st[dsOnRead].(type) {
-	case *closure:
-		if fn != nil {
-			call(fr.i, fr, 0, fn, []value{pos})
+	parts, _ := c[0].([]value)
+	if len(p) < len(parts) {
+		panic("vh.DocStream: chunk larger than the read buffer")
+	}
+	for n, pv := range parts {
+		pt := pv.(structure) // part{Kind, Idx}
+		kind, idx := int(asInt64(pt[0])), int(asInt64(pt[1]))
+		switch kind {
+		case 0:
+			p[n] = jsonItem{items[idx]}
+		case 1:
+			p[n] = jsonHead{idx}
+		case 2:
+			p[n] = jsonTail{idx, items[idx]}
 		}
-	case *ssa.Function:
-		if fn != nil {
-			call(fr.i, fr, 0, fn, []value{pos})
-		}
 	}
-	isReadErr := func(i int) bool { return i < len(items) && faultKind(items[i]) == fReadErr }
-	if pos >= len(items) {
-		return tuple{0, ioEOF(fr)}
-	}
-	if isReadErr(pos) {
-		st[dsPos] = pos + 1
-		return tuple{0, vhGlobal(fr, "ErrInjected")}
-	}
-	take := 1
-	if mode == 2 && pos+1 < len(items) && !isReadErr(pos+1) {
-		take = 2
-	}
-	if len(p) < take {
-		panic("vh.DocStream: items larger than the read buffer")
-	}
-	n := 0
-	for k := 0; k < take; k++ {
-		p[n] = jsonItem{items[pos]}
-		n++
-		pos++
-	}
-	st[dsPos] = pos
-	if mode == 1 && pos >= len(items) {
-		return tuple{n, ioEOF(fr)}
-	}
-	if mode == 3 && isReadErr(pos) {
-		st[dsPos] = pos + 1
-		return tuple{n, vhGlobal(fr, "ErrInjected")}
-	}
-	return tuple{n, iface{}}
+	return tuple{len(parts), c[1]}
 }
 
 // faultKind returns 0 for a JSON value, or the fault kind of the item.
@@ -459,7 +445,35 @@ func ioErrUnexpectedEOF(fr *frame) value {
 }
 
 func initJSON() {
-	reg("(*"+VHPath+".DocStream).Read", docStreamRead)
+	reg(VHPath+".emitChunk", emitChunkSym)
+	reg("(*encoding/json.Decoder).Buffered", func(fr *frame, args []value) value {
+		var text string
+		switch d := (*args[0].(*value)).(type) {
+		case *rdDecoder:
+			// what the real decoder would still hold: the newline after the value just
+			// decoded, then whatever arrived behind it
+			if d.consumed {
+				text = "\n"
+			}
+			for _, q := range d.queue {
+				if _, partial := q.(jsonHead); partial {
+					text += "{\"vh\":"
+				} else if faultKind(q) != 0 {
+					text += "@\n"
+				} else {
+					text += "{\"vh\":0}\n"
+				}
+			}
+		case hostDecoder:
+			b, _ := io.ReadAll(d.d.Buffered())
+			text = string(b)
+		default:
+			panic("json.Decoder.Buffered: bad receiver")
+		}
+		nr := fr.i.prog.ImportedPackage("strings").Func("NewReader")
+		rp := call(fr.i, fr, 0, nr, []value{text})
+		return iface{types.NewPointer(fr.i.prog.ImportedPackage("strings").Type("Reader").Type()), rp}
+	})
 	reg("encoding/json.NewDecoder", func(fr *frame, args []value) value {
 		r := args[0].(iface)
 		if r.t == nil {
@@ -491,6 +505,9 @@ func initJSON() {
 				}
 				d.fill(fr)
 			}
+			if _, partial := d.queue[0].(jsonHead); partial {
+				return true
+			}
 			switch faultKind(d.queue[0]) {
 			case fStrayClose:
 				return false
@@ -517,10 +534,26 @@ func initJSON() {
 				}
 				d.fill(fr)
 			}
+			for {
+				if _, partial := d.queue[0].(jsonHead); !partial {
+					break
+				}
+				// the value is still arriving: the decoder reads on
+				if d.rerr != nil {
+					if sameIface(d.rerr, ioEOF(fr)) {
+						d.stuck = ioErrUnexpectedEOF(fr)
+					} else {
+						d.stuck = d.rerr
+					}
+					return d.stuck
+				}
+				d.fill(fr)
+			}
 			item := d.queue[0]
 			switch faultKind(item) {
 			case 0:
 				d.queue = d.queue[1:]
+				d.consumed = true
 				target := args[1].(iface).v.(*value)
 				*target = item
 				return iface{}
